@@ -147,6 +147,10 @@ FIRST.update({  # rounds 9 and 10
  "C06h": ("missed", "edge driver: time passes and interest accrues on a bank flagged for token-less repayments (wind-down)"),
  "C07h": ("missed", "C07 clause insurance_pays_first_up_to_its_balance now computes, for transfer-fee mints, what the whole insurance vault can deliver net of the fee in force including its cap (it had only bounded the outflow by the vault balance)"),
 })
+FIRST.update({  # rounds 12 and 13
+ "C20g": ("missed", "C20 judges the staleness rule on what the program decides: Venue.tla instances, VenueRisk.tla and the kamino / drift / solend drivers run under C20 with clauses position_in_a_venue_not_refreshed_now_counts_for_nothing / no_*_assessment_on_a_venue_not_refreshed_now / no_price_cached_from_a_venue_not_refreshed_now; driver episodes with a feed older than the venue's last update, which is older than now"),
+ "C11j": ("missed", "TxShape Flash6 instance: flash-loan brackets on an account without any position (its end instruction is sent without bank / price accounts)"),
+})
 for d in sorted(os.listdir(os.path.join(ROOT, "seeded"))):
     mp = os.path.join(ROOT, "seeded", d, "meta.json")
     rp = os.path.join(ROOT, "seeded", d, "result.txt")
